@@ -237,6 +237,78 @@ def op_mode(mode):
     sx.reach("mode-set")
 
 
+def op_mode_pdo(first, second):
+    """Operation mode carried by PDO: 0x6060 shares RPDO1 with the controlword, 0x6061 comes with the statusword in
+    an event-driven TPDO1.  Two assignments (each accepted or refused according to a symbolic support mask), then a
+    state change that sends the RPDO again: every mode code the drive ever receives belongs to an accepted
+    assignment, and a refused one leaves nothing behind in the RPDO."""
+    node = _node()
+    drive = D.Drive(D.SOD)
+    sx.env().tick = 0.05
+    net = sx.mod("canopen.network").Network()
+    rx_modes = []
+
+    def send(cid, data, remote=False):
+        if cid == 0x203:
+            it = sx.items(data)
+            before = (drive.state, drive.mode)
+            drive.write_controlword(sx.le_int(it[0:2]))
+            m = sx.le_int(it[2:3], True)
+            rx_modes.append(m)
+            drive.mode = m
+            net.notify(0x183, sx.mkbytes(sx.items(_le(drive.statusword(), 2)) + [m & 0xFF]), sx.env().now)
+    net.send_message = send
+    net.add_node(node)
+    _attach_sdo(node, drive)
+    r = node.rpdo[1]
+    r.clear()
+    r.add_variable(0x6040)
+    r.add_variable(0x6060)
+    r.cob_id = 0x203
+    r.enabled = True
+    t = node.tpdo[1]
+    t.clear()
+    t.add_variable(0x6041)
+    t.add_variable(0x6061)
+    t.cob_id = 0x183
+    t.enabled = True
+    t.trans_type = 255
+    node.setup_pdos(upload=False)
+    net.notify(0x183, sx.mkbytes(sx.items(_le(drive.statusword(), 2)) + [0]), 1.0)
+    drive.supported = sx.fresh_int("supported", 0, 0xFFFFFFFF)
+    allowed = [0]
+    key = "C19/op_mode_pdo/%s/%s" % (first, second)
+    for mode in (first, second):
+        code, bit = D.MODES[mode]
+        sup = ((drive.supported >> bit) & 1) == 1
+        try:
+            node.op_mode = mode
+            sx.prove(sup, "mode not advertised but accepted", key + "/accepted")
+            allowed.append(code)
+            sx.prove(drive.mode == code, "accepted mode reached the drive as its CiA 402 code", key + "/code")
+            sx.reach("mode-pdo-set")
+        except TypeError:
+            sx.prove(sx.not_(sup), "advertised mode refused", key + "/refused")
+            sx.reach("mode-pdo-refused")
+        except Exception as e:
+            sx.observe("exc", C.exc_name(e))
+            sx.fail("op_mode raised %s" % C.exc_name(e), key + "/raises")
+            return
+    # the RPDO goes out again for another reason
+    try:
+        node.state = D.RTSO
+    except Exception as e:
+        sx.observe("exc", C.exc_name(e))
+        sx.fail("state change raised %s" % C.exc_name(e), key + "/state-raises")
+        return
+    sx.observe("rx", list(rx_modes))
+    sx.prove(sx.all_([sx.any_([m == a for a in allowed]) for m in rx_modes]),
+             "the drive received a mode code that was never accepted", key + "/foreign-code")
+    if rx_modes:
+        sx.prove(rx_modes[-1] == allowed[-1], "the RPDO carries the last accepted mode", key + "/last")
+    sx.reach("mode-pdo")
+
+
 def jobs(tier):
     out = [dict(func="decode", params={})]
     for ini in D.ALL_STATES:
@@ -248,6 +320,11 @@ def jobs(tier):
             out.append(dict(func="bad_target", params=dict(initial=ini, target=tgt)))
     for mode in D.MODES:
         out.append(dict(func="op_mode", params=dict(mode=mode)))
+    names = list(D.MODES)
+    pairs = [(names[i], names[(i + 1) % len(names)]) for i in range(len(names))] if tier == "quick" else \
+        [(a, b) for a in names for b in names if a != b]
+    for a, b in pairs:
+        out.append(dict(func="op_mode_pdo", params=dict(first=a, second=b), weight=2))
     starts = (D.SOD, D.FAULT, D.OE) if tier == "quick" else D.ALL_STATES
     for ini in starts:
         for t1 in D.COMMANDABLE:
@@ -275,7 +352,7 @@ META = dict(
     stubs=["struct", "time.monotonic", "threading.Condition", "sdo.upload/download replaced on the instance (framing is "
            "C01's business)", "Network.send_message replaced on the instance"],
     required_reach=["decode-unknown"] + ["decode-" + s for s in D.ALL_STATES] +
-                   ["refused", "commanded", "bad-target-refused", "mode-refused", "mode-set", "sequence"],
+                   ["refused", "commanded", "bad-target-refused", "mode-refused", "mode-set", "sequence", "mode-pdo", "mode-pdo-set", "mode-pdo-refused"],
     limits=dict(quick=dict(max_decisions=20000), thorough=dict(max_decisions=20000, crosscheck_every=2, crosscheck_max=30)),
     validate_every=dict(quick=2, thorough=1),
 )
